@@ -166,13 +166,39 @@ func checkC15(p *Program, r *Report) {
 	r.Explanation = "Decided for every value: (sizes) per encoder type the size reports normalise to the same term — len(Encode(v)), the count Decode reports, GetSize and GetEncodedSize: the constant Sizeof(T) for the fixed integers, UintSize/8 for Int, 2+len / 2+(256*b[0]+b[1]) for String16 with the header written as (len>>8, len), Size for Bytes/TypeEncoder, 0 for Dummy; (bijection, a complete proof for I8..U64 given encoding/binary) between the type assertion d.(T) and binary.LittleEndian.PutUintN, and between UintN and the boxed result, every conversion is between integer types of equal width N = 8*Sizeof(T), the buffer has N/8 bytes, Put and Get use the same N and the byte-order object is LittleEndian — so Decode(Encode(v)) = v and the layout is fixed-width little-endian two's complement; (TypeEncoder) Encode/Decode go only through encoding/binary with the configured order and type, guarded by the type check; every constructor returns a fresh encoder (its own allocation or a delegate constructor's) with the requested order; no (reflect.Type).Size() — in-memory size with padding — reaches the Size field for a kind that can have padding (kinds possible at the call computed from the Kind() tests on the way); (total) no codec has an explicit panic under conditions, all constant comparisons of the value or its length, that a value of its domain satisfies (String16: 0..65535 bytes)."
 	r.NotCovered = "TypeEncoder field-by-field layout (encoding/binary's), String16 beyond 65535 bytes (outside its domain), Dummy (lossy by design)."
 	r.Trusted = []string{"go/ssa, go/types", "encoding/binary PutUintN/UintN/Read/Write"}
+	checkCodecsAs(p, r, "C15")
+}
+
+// checkCodecsAs: the codec rules of C15 under the names of another property that hands values to the
+// encoders and promises to return them unchanged (C01 "any value encoder", C02, C10, C14, C16's generic
+// accessor): Decode(Encode(v)) = v is a necessary condition of each. Under "C15" the rules keep their
+// own names, elsewhere they are <pfx>.codec-<rule>.
+func checkCodecsAs(p *Program, r *Report, pfx string) {
+	nm := func(x string) string {
+		if pfx == "C15" {
+			return "C15." + x
+		}
+		return pfx + ".codec-" + x
+	}
+	if pfx != "C15" {
+		r.Explanation += " (codec) the value codecs of package encode are decided as in C15 — the four size reports of each encoder are one term, I8..U64 are width-preserving conversion chains around LittleEndian Put/Get of the same width, String16 writes and reads a big-endian 16-bit length, TypeEncoder goes only through encoding/binary with its configured order and type: returning the value that was supplied presupposes Decode(Encode(v)) = v."
+	}
+	saved := r.curRule
+	defer func() {
+		if pfx != "C15" {
+			r.curRule = saved
+		}
+	}()
 	encs := encoderTypes(p)
-	r.Rule("C15.sizes", "E6", "the size reports of an encoder are one term", 11)
-	r.Rule("C15.bijection", "types+SSA", "fixed integer codecs: width-preserving conversion chains around LittleEndian Put/Get", 7)
-	r.Rule("C15.string16", "E6", "String16 header: big-endian 16-bit length written and read", 2)
-	r.Rule("C15.typeencoder", "structure", "TypeEncoder delegates to encoding/binary with its configured order and type", 2)
-	r.Rule("C15.total", "E11", "no explicit panic for a value of the encoder's domain", 9)
+	r.Rule(nm("sizes"), "E6", "the size reports of an encoder are one term", 11)
+	r.Rule(nm("bijection"), "types+SSA", "fixed integer codecs: width-preserving conversion chains around LittleEndian Put/Get", 7)
+	r.Rule(nm("string16"), "E6", "String16 header: big-endian 16-bit length written and read", 2)
+	r.Rule(nm("typeencoder"), "structure", "TypeEncoder delegates to encoding/binary with its configured order and type", 2)
+	if pfx == "C15" {
+		r.Rule(nm("total"), "E11", "no explicit panic for a value of the encoder's domain", 9)
+	}
 	rule := func(name string) {
+		name = nm(strings.TrimPrefix(name, "C15."))
 		for _, ri := range r.Rules {
 			if ri.Name == name {
 				r.curRule = ri
@@ -342,7 +368,7 @@ func checkC15(p *Program, r *Report) {
 		default:
 			r.Note("encoder type encode.%s is not classified by this rule set (not analysed)", name)
 		}
-		if name != "TypeEncoder" {
+		if name != "TypeEncoder" && pfx == "C15" {
 			rule("C15.total")
 			checkEncoderTotal(p, r, name, boxed, enc, dec, gs, ges)
 		}
